@@ -439,7 +439,7 @@ func init() {
 		// a timer channel that may fire: one buffered tick (select explores both outcomes)
 		p.objN++
 		tt := fn.Signature.Results().At(0).Type().Underlying().(*types.Chan).Elem()
-		return &ChanV{ID: p.objN, Name: "timer", Buf: []Value{p.zero(tt)}}
+		return &ChanV{ID: p.objN, Name: "timer", Cap: 1, Buf: []Value{p.zero(tt)}}
 	})
 
 	// ----- reflect (only the nil test used by mgr.NewGroup) -----
